@@ -20,8 +20,9 @@ FUNCTIONS = ['ddsmt.nodeio:write_smtlib_to_file', 'ddsmt.nodeio:write_smtlib',
              'ddsmt.strategy_ddmin:_check_seq', 'ddsmt.__main__:main']
 ASSUMPTIONS = [
     'fake file system with POSIX semantics: open(path, "w") truncates at '
-    'once, every write() reaches the file immediately (worst case for a '
-    'reader), os.replace/os.rename are atomic, a crash happens between two '
+    'once; write() either reaches the file immediately or (second variant) '
+    'stays in the handle buffer until flush/close - the two extremes of '
+    'buffering; os.replace/os.rename are atomic; a crash happens between two '
     'file-system operations',
     'builtin open and the os module as seen by ddsmt.nodeio are replaced by '
     'the fake; the strategies run with the oracle/pool stubs of C05',
@@ -36,14 +37,29 @@ class Crash(BaseException):
     pass
 
 
+class Inode:
+    def __init__(self):
+        self.data = ''
+
+
+class _View(dict):
+    """name -> content view over name -> Inode."""
+
+
 class FakeFS:
-    def __init__(self, crash_at, observer):
-        self.files = {}
+    def __init__(self, crash_at, observer, buffered=False):
+        self.buffered = buffered
+        self.inodes = {}
         self.step = 0
         self.crash_at = crash_at
         self.observer = observer
         self.opened_w = []
+        self.renamed = {}
         self.crashed = False
+
+    @property
+    def files(self):
+        return {k: v.data for k, v in self.inodes.items()}
 
     def tick(self, what):
         """Called before every operation."""
@@ -67,14 +83,28 @@ class FakeFS:
         class H:
             def __init__(h):
                 h.closed = False
+                h.buf = ''
+                h.inode = None
 
             def write(h, s):
+                if fs.buffered:
+                    h.buf = h.buf + s     # reaches the file at flush/close
+                    return
                 fs.tick('write')
-                fs.files[name] = fs.files[name] + s
+                h.inode.data = h.inode.data + s
                 fs.after()
+
+            def flush(h):
+                if h.buf:
+                    fs.tick('flush')
+                    # the data follows the open file, whatever its name now
+                    h.inode.data = h.inode.data + h.buf
+                    h.buf = ''
+                    fs.after()
 
             def close(h):
                 if not h.closed:
+                    h.flush()
                     h.closed = True
 
             def __enter__(h):
@@ -85,16 +115,23 @@ class FakeFS:
                 return False
 
             def read(h):
-                return fs.files[name]
+                return h.inode.data
 
+        hd = H()
         if 'w' in mode:
             self.tick('open')
             self.opened_w.append(name)
-            self.files[name] = ''
+            if name in self.inodes:
+                self.inodes[name].data = ''      # truncate in place
+            else:
+                self.inodes[name] = Inode()
+            hd.inode = self.inodes[name]
             self.after()
-        elif name not in self.files:
+        elif name not in self.inodes:
             raise FileNotFoundError(name)
-        return H()
+        else:
+            hd.inode = self.inodes[name]
+        return hd
 
 
 class FakeOS:
@@ -111,14 +148,14 @@ class FakeOS:
 
     def replace(self, a, b):
         self.fs.tick('replace')
-        self.fs.files[b] = self.fs.files.pop(a)
+        self.fs.inodes[b] = self.fs.inodes.pop(a)
         self.fs.after()
 
     rename = replace
 
     def remove(self, a):
         self.fs.tick('remove')
-        self.fs.files.pop(a, None)
+        self.fs.inodes.pop(a, None)
         self.fs.after()
 
     unlink = remove
@@ -134,7 +171,7 @@ SCRIPT = ['(declare-const x Int)(assert (> x 1))(assert (< x 5))(check-sat)',
           '(check-sat)']
 
 
-def direct_body(n, fmt):
+def direct_body(n, fmt, buffered=False):
     """Three successive rewrites of the output file."""
     from ddsmt import nodeio
     from harness.c07 import _set_mode
@@ -157,7 +194,7 @@ def direct_body(n, fmt):
                             f'sees {fs.files[OUT]!r} while rewrite '
                             f'#{state["k"]} is in progress')
 
-    fs = FakeFS(n, observer)
+    fs = FakeFS(n, observer, buffered)
     saved = {'open': getattr(nodeio, 'open', None),
              'os': getattr(nodeio, 'os', None)}
     nodeio.open = fs.open
@@ -202,7 +239,7 @@ def direct_body(n, fmt):
     return None
 
 
-def make_direct():
+def make_direct(buffered):
     def h(n: int, fmt: int):
         from crosshair.tracers import NoTracing
         assume(0 <= n <= 120)
@@ -210,7 +247,7 @@ def make_direct():
         from crosshair.core import realize
         fmt = realize(fmt)
         with NoTracing():
-            r = direct_body(n, fmt)
+            r = direct_body(n, fmt, buffered)
         if r:
             raise Violation(r)
     return h
@@ -314,8 +351,11 @@ def bounds(tier):
 
 
 def partitions(tier):
-    parts = [{'name': 'direct', 'fn': make_direct(), 'setup': _setup,
-              'budget_s': 160}]
+    parts = [{'name': 'direct', 'fn': make_direct(False), 'setup': _setup,
+              'budget_s': 160, 'bounds': {'writes': 'visible immediately'}},
+             {'name': 'directbuf', 'fn': make_direct(True), 'setup': _setup,
+              'budget_s': 160,
+              'bounds': {'writes': 'buffered until flush/close'}}]
     for st in ('hierarchical', 'ddmin'):
         for k, bits in enumerate(([0, 0, 1, 0, 0, 0], [1, 0, 0, 0, 0, 1])):
             parts.append({'name': f'{st}_{k}',
@@ -330,6 +370,8 @@ def replay(part, cex):
     try:
         if part == 'direct':
             return direct_body(cex['n'], cex['fmt'])
+        if part == 'directbuf':
+            return direct_body(cex['n'], cex['fmt'], True)
         st, k = part.split('_')
         bits = ([0, 0, 1, 0, 0, 0], [1, 0, 0, 0, 0, 1])[int(k)]
         r = strategy_body(cex['n'], st, bits)
